@@ -148,7 +148,56 @@ pub struct RealRun {
 }
 
 fn response_json(r: &ExecutionResponse) -> J {
-    serde_json::to_value(r).expect("response serialises")
+    let mut j = serde_json::to_value(r).expect("response serialises");
+    // the response type is also `Deserialize`: what was written must read back as the same value
+    let back: Result<ExecutionResponse, _> = serde_json::from_value(j.clone());
+    if !matches!(&back, Ok(b) if b == r) {
+        if let Some(m) = j.as_object_mut() {
+            m.insert("__verif_roundtrip_mismatch".into(), J::Bool(true));
+        }
+    }
+    j
+}
+
+/// Spec section 7.1 response format, plus apollo-compiler's own marker for "cannot happen on a valid
+/// document": checked on every executed response, whatever the resolvers did
+fn response_format_problem(resp: &J) -> Option<String> {
+    let obj = resp.as_object()?;
+    if obj.contains_key("__verif_roundtrip_mismatch") {
+        return Some("serialised response does not deserialise to the same ExecutionResponse".into());
+    }
+    if !obj.contains_key("data") {
+        return Some("no `data` entry although execution started".into());
+    }
+    if !(obj["data"].is_null() || obj["data"].is_object()) {
+        return Some("`data` is neither null nor an object".into());
+    }
+    if let Some(k) = obj.keys().find(|k| !matches!(k.as_str(), "data" | "errors" | "extensions")) {
+        return Some(format!("unexpected top-level entry `{k}`"));
+    }
+    match obj.get("errors") {
+        None => {}
+        Some(J::Array(a)) if a.is_empty() => return Some("`errors` present but empty".into()),
+        Some(J::Array(a)) => {
+            for e in a {
+                let Some(e) = e.as_object() else { return Some("an error is not an object".into()) };
+                if !e.get("message").and_then(|m| m.as_str()).is_some_and(|m| !m.is_empty()) {
+                    return Some("an error has no message".into());
+                }
+                if !e.get("path").and_then(|p| p.as_array()).is_some_and(|p| !p.is_empty()) {
+                    return Some(format!("field error without a path: {}", J::Object(e.clone())));
+                }
+                if e.get("extensions").and_then(|x| x.get("APOLLO_SUSPECTED_VALIDATION_BUG")).is_some() {
+                    return Some(format!(
+                        "error flagged APOLLO_SUSPECTED_VALIDATION_BUG on a document that passed validation: {}",
+                        J::Object(e.clone())
+                    ));
+                }
+            }
+        }
+        Some(_) => return Some("`errors` is not a list".into()),
+    }
+    None
 }
 
 thread_local! {
@@ -691,6 +740,10 @@ pub fn check_c26(case: &Case, p: &Parsed, trace: bool) -> C26Outcome {
     let real_data = resp.get("data").cloned().unwrap_or(J::Null);
     let model_data = mr.data.clone().unwrap_or(J::Null);
     out.violation = (|| {
+        // 0. response format
+        if let Some(problem) = response_format_problem(&resp) {
+            return viol("response_format", format!("malformed response | {problem}"));
+        }
         // 1. data: exact, key order included
         if let Some(d) = first_diff(&real_data, &model_data, "data") {
             return viol("data_differs_from_reference", format!("real vs reference: {d}"));
